@@ -11,7 +11,7 @@ HERE = os.path.dirname(os.path.dirname(os.path.abspath(__file__)))
 head = subprocess.check_output(['git', '-C', '/repo', 'rev-parse', '--short', 'HEAD'], text=True).strip()
 rows = []
 for d in sorted(os.listdir(os.path.join(HERE, 'seeded'))):
-    if not re.fullmatch(r'C\d+[ABC]', d):
+    if not re.fullmatch(r'C\d+[A-Z]', d):
         continue
     mp = os.path.join(HERE, 'seeded', d, 'meta.json')
     meta = json.load(open(mp))
